@@ -3,49 +3,25 @@ package main
 import (
 	"fmt"
 	"math/rand"
-	"strings"
 
 	"verif/ops"
 )
 
-type dbgMon struct{ done bool }
+type dbgMon struct{ n int }
 
 func (d *dbgMon) OnStep(w *ops.World, st *ops.Step) {
-	if d.done || !strings.Contains(st.Err, "coinbase") {
-		return
-	}
-	d.done = true
-	c := w.C
-	ctx := c.Ctx()
-	prop := c.Header.ProposerAddress
-	fmt.Printf("step %d h=%d proposer %X\n", st.I, st.Height, prop)
-	for _, o := range w.Opers {
-		for _, k := range o.Keys {
-			if string(k.ConsAddr()) == string(prop) {
-				fmt.Println("  proposer is", o.Acct.Name, k.Name, "state", ops.OperState(w, o))
-			}
-		}
-	}
-	found, oa := c.App.OperatorKeeper.GetOperatorAddressForChainIDAndConsAddr(ctx, "exocore_233", prop)
-	fmt.Println("  reverse lookup", found, oa)
-	if found {
-		f2, key, err := c.App.OperatorKeeper.GetOperatorConsKeyForChainID(ctx, oa, "exocore_233")
-		fmt.Println("  cons key", f2, key != nil, err)
-		v, err := c.App.OperatorKeeper.GetOrCalculateOperatorUSDValues(ctx, oa, w.AVSAddr)
-		fmt.Println("  usd", v, err)
+	if st.Kind == "undelegate" && st.Ack && d.n < 6 {
+		d.n++
+		fmt.Println("undelegate step", st.I, "op state", ops.OperState(w, st.Oper), "holds", st.Post.Ledger.Hold, "mature", st.Post.Dog.Mature, "N", st.Post.Dog.Params.EpochsUntilUnbonded, "epoch", st.Post.Epochs[st.Post.Dog.Params.EpochIdentifier].CurrentEpoch)
 	}
 }
 
 func main() {
-	seed, i := int64(1), 436
+	seed, i := int64(1), 260
 	o := ops.DefaultLedgerOpts()
 	r := rand.New(rand.NewSource(seed*7919 + int64(i)))
 	o.NOps = 2 + r.Intn(4)
-	o.ExtraOps = 1 + r.Intn(3)
-	o.NStakers = 3 + r.Intn(6)
-	o.Steps = 100 + r.Intn(80)
-	o.Unbond = uint32(1 + r.Intn(3))
-	o.Profile = "exit"
+	o.Profile = "queues"
 	w, err := ops.BuildLedgerWorld(seed, i, o)
 	if err != nil {
 		panic(err)
